@@ -11,7 +11,7 @@ executed: this is a case-splitting abstract interpreter over the AST.
 Anything outside the modelled subset raises AnalysisError (exit 2).
 """
 import ast
-from .model import AnalysisError, dump, mangle
+from .model import AnalysisError, dump, mangle, is_logging_call
 
 
 class K(object):
@@ -700,7 +700,7 @@ class Evaluator(object):
             if isinstance(b0, L) and isinstance(args[0], (K, L)):
                 b0.elts.extend([K(x) for x in args[0].v] if isinstance(args[0], K) else args[0].elts)
                 return K(None)
-        if isinstance(f, ast.Attribute) and isinstance(f.value, ast.Name) and f.value.id in ("_logger", "logging"):
+        if is_logging_call(e):
             return K(None)
         if fname == "isinstance" and len(args) == 2:
             ts = self.prog.typeset(fi.module, e.args[1])
